@@ -3,7 +3,8 @@ import re
 import t2t, corr, semrun, gen, impl
 
 OBLIGATIONS = ['Yalafi.C08_latexError_mark', 'Yalafi.C08_latexError_inRange', 'Yalafi.C08_lineCol', 'Yalafi.C08_scanVerb_mark', 'Yalafi.C08_scanVerbatim_mark',
-               'Yalafi.C08_verb_unterminated', 'Yalafi.C08_verb_segments']
+               'Yalafi.C08_verb_unterminated', 'Yalafi.C08_verb_segments',
+               'Yalafi.C08_math_unterminated', 'Yalafi.C08_math_unterminated_end', 'Yalafi.C08_math_segments', 'Yalafi.C08_math_mark_complete', 'Yalafi.C08_math_text_kept', 'Yalafi.C08_math_silent', 'Yalafi.C08_math_current_facts', 'Yalafi.C08_math_ref_current', 'Yalafi.C08_math_unterminated_current', 'Yalafi.C08_math_unterminated_end_current']
 
 SILENT = {'c_group', 'c_unknown', 'c_vanish', 'c_ref', 'c_inline_math', 'c_verb', 'c_cite', 'c_footnote', 'c_heading', 'c_itemize',
           'c_display', 'c_env_unknown', 'c_verbatim', 'c_skip', 'c_newcommand', 'c_usermacro', 'c_special', 'c_symbol', 'c_lt',
